@@ -307,6 +307,9 @@ class RepoClass:
     def __dict__(self):  # noqa: PLW3201 - models cls.__dict__ (names defined in the class body)
         return self.members
 
+    def __getitem__(self, item):  # Generic[T] subscription: Cls[T] is Cls for our purposes
+        return self
+
     def __call__(self, *args, **kwargs):
         return self.interp.instantiate(self, list(args), dict(kwargs))
 
@@ -1208,6 +1211,8 @@ class Interp:
                 return isinstance(x, Obj) and obj_class(x).issubclass_of(c)
             if hasattr(c, "sym_instancecheck"):
                 return c.sym_instancecheck(x)
+            if c in builtin_types:
+                c = builtin_types[c]
             if isinstance(c, type):
                 if c in (int, float, bool) and isinstance(x, V.SV):
                     return False
@@ -1351,6 +1356,7 @@ class Interp:
         def b_print(*a, **k):
             return None
 
+        builtin_types = {b_tuple: tuple, b_list: list, b_int: int, b_float: float, b_bool: bool}
         b = dict(len=b_len, isinstance=b_isinstance, range=b_range, zip=b_zip, reversed=b_reversed, enumerate=b_enumerate, tuple=b_tuple,
                  list=b_list, all=b_all, any=b_any, sum=b_sum, min=b_min, max=b_max, float=b_float, int=b_int, bool=b_bool, round=b_round,
                  abs=b_abs, callable=b_callable, type=b_type, hasattr=b_hasattr, getattr=b_getattr, setattr=b_setattr, print=b_print,
